@@ -104,7 +104,7 @@ ITEM_SPACE = 5 * 4 * 4 * 300 ** 4
 
 
 def strategy():
-    item = st.integers(0, ITEM_SPACE - 1).map(decode_item)
+    item = worldops.packed(ITEM_SPACE).map(decode_item)
     entity = st.tuples(st.integers(0, len(IDS) - 1), st.lists(item, max_size=4)).map(
         lambda t: {'id': t[0], 'components': t[1]})
     return st.fixed_dictionaries({
